@@ -103,6 +103,23 @@ theorem draw_terminates {G : Type} (width : G → Int) (m : TextInput.TI G) (pro
     (match TextInput.draw width m prompt winW with | .hang => false | _ => true) = true :=
   draw_not_hang width m prompt winW hoff hcur
 
+/-- `cursor_column` (textinput): while prompt + text + scrolloff fit in the window and the view is not
+scrolled, `Draw` keeps the offset at 0 and shows the cursor in column prompt width + display width
+of the ideal editor's text before its cursor. (`col` is the column after the prompt.) -/
+theorem textinput_cursor_column {G : Type} (width : G → Int) (hw : ∀ g, 0 ≤ width g)
+    (m : TextInput.TI G) (prompt : List G) (winW col : Int) (hinv : TIInv m) (hoff : m.offset = 0)
+    (hp : TextInput.promptLoop width winW prompt 0 = some col) (hcol : 0 ≤ col)
+    (hfit : col + widthSumI width m.content + 4 < winW) :
+    TextInput.draw width m prompt winW =
+      .shown m (col + widthSumI width ((tiAbs m).text.take (tiAbs m).cursor)) :=
+  draw_cursor_fit width hw m prompt winW col hinv hoff hp hcol hfit
+
+/-- Non-vacuity of `textinput_cursor_column`: "世a" with the cursor at the end in a 12-column window
+with a 2-column prompt shows the cursor in column 5. -/
+example :
+    (match TextInput.draw (fun g : Nat => if g = 3 then 2 else 1) (TextInput.setContent TextInput.new [3, 0]) [0, 0] 12 with
+     | .shown _ c => c | _ => -1) = 5 := by decide
+
 /-- Non-vacuity: "ab cd" + Ctrl+w deletes the last word; a 4-column window draws. -/
 example :
     (tiRun (fun g : Nat => g < 2) (fun _ => 1) (TextInput.setContent TextInput.new [0, 1, 5, 0, 1])
